@@ -10,6 +10,7 @@ VERIF = os.path.dirname(os.path.dirname(os.path.abspath(__file__)))
 # id -> (technique, level text, level note, design ref)
 CLAIMS = {}
 NOT_APPLICABLE = {}
+ADDENDA = {}
 
 
 def claim(pid, technique, text, note, ref):
@@ -36,7 +37,7 @@ def main():
             'evidence_file': '/verif/evidence/%s.json' % pid,
             'replay_cmd_template': './check %s --replay {path}' % pid,
             'engine': 'sa',
-            'level_claimed': {'category': 'other', 'text': text, 'design_ref': ref},
+            'level_claimed': {'category': 'other', 'text': text + (' ' + ADDENDA[pid] if pid in ADDENDA else ''), 'design_ref': ref},
             'level_note': note + ' ' + COMMON_NOTE,
             'technique': technique,
         })
